@@ -96,7 +96,7 @@ SortedSeq(s) == IF s = {} THEN <<>> ELSE LET m == CHOOSE x \in s : \A y \in s : 
 Proj(S) ==
   [t |-> S.now,
    peers |-> [p \in Peers |-> [conn |-> S.peer[p].conn, st |-> ConnSt(S, S.peer[p].conn), reason |-> S.peer[p].reason,
-                               ldisc |-> S.peer[p].lastDisc, lconn |-> S.peer[p].lastConnect]],
+                               ldisc |-> S.peer[p].lastDisc, lconn |-> S.peer[p].lastConnect, cnt |-> S.peer[p].cnt]],
    conns |-> SortedSeq(ToSet(S.connections)), socks |-> SortedSeq(ToSet(S.peerSockets)),
    apps |-> [a \in Apps |-> IF S.appReady[a] THEN 1 ELSE 0],
    closed |-> SortedSeq({c \in ConnIds : S.conn[c].used /\ S.conn[c].sock = "closed"}),
